@@ -42,7 +42,7 @@ def main():
     confirmed = meta["demo_passes_without_change"] and meta["demo_fails_with_change"] and meta["builds_and_suite_passes_with_change"]
     meta["confirmed"] = confirmed
     results = {}
-    if confirmed:
+    if confirmed and not os.environ.get("SEED_CONFIRM_ONLY"):
         rc, out = sh("git -C /repo status --porcelain")
         assert out.strip() == "", "/repo not clean: " + out
         rc, out = sh("git -C /repo apply %s" % patch)
@@ -59,6 +59,9 @@ def main():
             sh("git -C /repo checkout -- . && git -C /repo clean -fdq")
     meta["checks"] = results
     meta["detected_by"] = sorted(p for p, r in results.items() if r["exit"] == 1)
+    if os.environ.get("SEED_CONFIRM_ONLY"):
+        print(json.dumps({k: meta[k] for k in ("id", "confirmed", "demo_passes_without_change", "demo_fails_with_change", "builds_and_suite_passes_with_change")}))
+        return
     d = "/verif/seeded/%s" % sid
     os.makedirs(d, exist_ok=True)
     shutil.copy(patch, os.path.join(d, "patch.diff"))
